@@ -19,6 +19,8 @@ CONSTANTS GenDepth,     \* length of the histories to emit
           GenForkLen,   \* max length of a new branch (0: no reorganisations)
           GenForkDepth, \* max number of best-chain blocks a Fork detaches
           GenPending,   \* TRUE: Announce / HandleTx enabled
+          Script,       \* <<>>: free generation; otherwise the exact action sequence to follow
+                        \* (regression histories: TLC recomputes the expected views for them)
           GenRandom     \* TRUE (simulation only): one random instance per action kind, so that
                         \* kinds are drawn uniformly instead of proportionally to their instances
 
@@ -37,6 +39,7 @@ Expect ==
           synced |-> Len(wchain'),
           best |-> best',
           pend |-> pend',
+          pendIdeal |-> Settle(pend', CC(wchain)'),
           views |-> [w \in Wallets |-> View(CC(wchain)', pend', w)]]
     ELSE [q |-> FALSE]
 
@@ -44,9 +47,26 @@ Log(r) == hist' = Append(hist, r @@ [exp |-> Expect])
 
 CanFinish == Len(ntfB') + Len(ntfT') <= GenDepth - (Len(hist) + 1)
 
+\* how an accepted announcement relates to the wallet's own chain (classifier of known findings):
+\*  "stale" - an input is already spent on the wallet's chain or on the node's (a conflict confirmed first)
+\*  "ahead" - a parent is known only from the node's best chain, which the wallet has not applied
+AcceptedHow(t) ==
+    IF \E op \in TxIns[t] : op \in SpentOn(CC(wchain)) \/ op \in SpentOn(CC(best)) THEN "stale"
+    ELSE IF \E op \in TxIns[t] : op[1] \notin TxsOn(CC(wchain)) /\ op[1] \notin pend THEN "ahead"
+    ELSE "ok"
+
 Pick(S) == IF GenRandom /\ S # {} THEN {RandomElement(S)} ELSE S
 
+NoScript == <<>>
 GenInit == Init /\ hist = <<>>
+
+\* does log entry r perform scripted action s ?
+SameAct(r, s) ==
+    /\ r.a = s.a
+    /\ CASE s.a \in {"Extend", "Fork"}          -> r.b = s.b /\ r.p = s.p /\ r.txs = s.txs
+         [] s.a \in {"HandleBlock", "SwitchTo"} -> r.b = s.b
+         [] s.a \in {"Announce", "HandleTx"}    -> r.t = s.t
+         [] OTHER                              -> TRUE
 
 GenNext ==
     /\ Len(hist) < GenDepth
@@ -70,8 +90,10 @@ GenNext ==
              /\ Announce(t) /\ UNCHANGED followerVars
              /\ Log([a |-> "Announce", t |-> t])
        \/ HandleBlock /\ Log([a |-> "HandleBlock", b |-> Head(ntfB)])
-       \/ HandleTx /\ Log([a |-> "HandleTx", t |-> Head(ntfT), acc |-> TxAccepted(Head(ntfT))])
+       \/ HandleTx /\ Log([a |-> "HandleTx", t |-> Head(ntfT), acc |-> TxAccepted(Head(ntfT)),
+                            why |-> AcceptedHow(Head(ntfT))])
     /\ CanFinish
+    /\ Script # <<>> => SameAct(hist'[Len(hist')], Script[Len(hist')])
 
 GenSpec == GenInit /\ [][GenNext]_gvars
 
